@@ -3,7 +3,8 @@
 //! (checked against the vendored rand-0.8.8 sources):
 //!  * `gen_range(a..b)`   : panics "cannot sample empty range" iff !(a < b); result in [a, b)
 //!  * `gen_range(a..=b)`  : panics iff !(a <= b); result in [a, b]
-//!  * float ranges        : additionally panic "range overflow" when (b - a) is not finite
+//!  * float ranges        : additionally panic "range overflow" when (b - a) is not finite, and (with
+//!                          debug assertions, i.e. the dev profile) when a bound is not finite
 //!  * `Uniform::from(a..b)`: panics "Uniform::new called with `low >= high`" iff !(a < b)
 //!  * `gen::<f32>()` in [0,1); `gen::<i32>()`, `gen::<bool>()` arbitrary.
 //! Rejection loops inside the real crate are replaced by their post-condition.
@@ -18,17 +19,32 @@ impl RngCore for ThreadRng {}
 pub trait NondetValue: Sized + PartialOrd + Copy {
     fn any() -> Self;
     fn span_ok(_lo: Self, _hi: Self) -> bool { true }
+    fn finite(self) -> bool { true }
+    /// Some(lo) when [lo, hi) contains exactly one value (integers): the draw is then returned as a
+    /// concrete value, which keeps CBMC's symbolic execution from forking on it. Exact, not a cut.
+    fn single(_lo: Self, _hi: Self) -> Option<Self> { None }
 }
-impl NondetValue for i32 { fn any() -> Self { nondet::any_i32() } }
-impl NondetValue for u32 { fn any() -> Self { nondet::any_u32() } }
-impl NondetValue for usize { fn any() -> Self { nondet::any_usize() } }
+impl NondetValue for i32 {
+    fn any() -> Self { nondet::any_i32() }
+    fn single(lo: Self, hi: Self) -> Option<Self> { if lo < hi && lo + 1 == hi { Some(lo) } else { None } }
+}
+impl NondetValue for u32 {
+    fn any() -> Self { nondet::any_u32() }
+    fn single(lo: Self, hi: Self) -> Option<Self> { if lo < hi && lo + 1 == hi { Some(lo) } else { None } }
+}
+impl NondetValue for usize {
+    fn any() -> Self { nondet::any_usize() }
+    fn single(lo: Self, hi: Self) -> Option<Self> { if lo < hi && lo + 1 == hi { Some(lo) } else { None } }
+}
 impl NondetValue for f32 {
     fn any() -> Self { nondet::any_f32() }
     fn span_ok(lo: Self, hi: Self) -> bool { (hi - lo).is_finite() }
+    fn finite(self) -> bool { self.is_finite() }
 }
 impl NondetValue for f64 {
     fn any() -> Self { nondet::any_f64() }
     fn span_ok(lo: Self, hi: Self) -> bool { (hi - lo).is_finite() }
+    fn finite(self) -> bool { self.is_finite() }
 }
 
 pub trait SampleRange<T> {
@@ -37,8 +53,12 @@ pub trait SampleRange<T> {
 impl<T: NondetValue> SampleRange<T> for Range<T> {
     fn sample_single(self) -> T {
         assert!(self.start < self.end, "cannot sample empty range");
+        debug_assert!(self.start.finite() && self.end.finite(), "UniformSampler::sample_single called with a non-finite bound");
         assert!(T::span_ok(self.start, self.end), "UniformSampler::sample_single: range overflow");
         nondet::count_draw();
+        if let Some(v) = T::single(self.start, self.end) {
+            return v;
+        }
         let x = T::any();
         nondet::assume(self.start <= x && x < self.end);
         x
@@ -48,6 +68,7 @@ impl<T: NondetValue> SampleRange<T> for RangeInclusive<T> {
     fn sample_single(self) -> T {
         let (lo, hi) = (*self.start(), *self.end());
         assert!(lo <= hi, "cannot sample empty range");
+        debug_assert!(lo.finite() && hi.finite(), "UniformSampler::sample_single_inclusive called with a non-finite bound");
         assert!(T::span_ok(lo, hi), "UniformSampler::sample_single_inclusive: range overflow");
         nondet::count_draw();
         let x = T::any();
@@ -121,6 +142,9 @@ pub mod distributions {
     impl<T: NondetValue> Distribution<T> for Uniform<T> {
         fn sample<R: Rng + ?Sized>(&self, _rng: &mut R) -> T {
             nondet::count_draw();
+            if let Some(v) = T::single(self.low, self.high) {
+                return v;
+            }
             let x = T::any();
             nondet::assume(self.low <= x && x < self.high);
             x
